@@ -284,7 +284,7 @@ func checkC18(c Case) *Failure {
 
 func runC18(r *Run) {
 	r.Level = "model_checking"
-	r.Rule("for each of the five Go datetime types every value of a grid (9 dates incl. years 1 and 9999 and leap day x 4 clock times x 9 nanosecond patterns x whole-minute offsets -12:00..+14:00 in 15/45-minute steps plus +-1, +-59, +-30, +05:30, -03:30 minutes): String() equals the reference ISO-8601 printer, ParseTime(String(v)) equal and same type, json round trip equal, .string() in a path prints the same text; UnmarshalJSON (direct and through encoding/json) on every byte string of length <= 3 over a 20-byte alphabet, every prefix and every single-byte edit of one valid encoding per type, every JSON token kind, and every valid encoding padded with 0..9 leading and trailing bytes of each JSON white-space character: never a panic; date -> timestamptz -> date and timestamp -> timestamptz -> timestamp identities for every grid value x 8 context zones where the local time exists; non-trivial = every grid value / input (all distinct)")
+	r.Rule("for each of the five Go datetime types every value of a grid (9 dates incl. years 1 and 9999 and leap day x 4 clock times x 9 nanosecond patterns x whole-minute offsets -12:00..+14:00 in 15/45-minute steps plus +-1, +-59, +-30, +05:30, -03:30 minutes): String() equals the reference ISO-8601 printer, ParseTime(String(v)) equal and same type, json round trip equal, .string() in a path prints the same text; UnmarshalJSON (direct and through encoding/json) on every byte string of length <= 3 over a 20-byte alphabet, every prefix and every single-byte edit of one valid encoding per type, every JSON token kind, and every valid encoding padded with 0..9 leading and trailing bytes of each JSON white-space character, and every valid encoding with its characters written as \\uXXXX escapes (each one, the first / last k, all) or surrounded by 1..8 short escapes: never a panic; date -> timestamptz -> date and timestamp -> timestamptz -> timestamp identities for every grid value x 8 context zones where the local time exists; non-trivial = every grid value / input (all distinct)")
 	grid := c18Grid(r.Thorough())
 	r.Bound("grid_values", len(grid))
 	r.ParFor(len(grid), func(i int) {
@@ -362,6 +362,28 @@ func runC18(r *Run) {
 						inputs = append(inputs, strings.Repeat(ws, lead)+body+strings.Repeat(ws, trail))
 					}
 				}
+			}
+		}
+	}
+	// escaped spellings of a JSON string: every character of a valid encoding written as \uXXXX (one at a
+	// time, the first k, the last k, all), short escapes, and escapes inside short and malformed strings
+	uesc := func(b byte) string { return fmt.Sprintf("\\u%04x", b) }
+	for _, sv := range append(append([]string{}, valid...), `"a"`, `""`, `"12:34"`, `"+05:30"`) {
+		body := sv[1 : len(sv)-1]
+		for i := 0; i < len(body); i++ {
+			inputs = append(inputs, `"`+body[:i]+uesc(body[i])+body[i+1:]+`"`)
+		}
+		for k := 1; k <= len(body); k++ {
+			var head, tail strings.Builder
+			for i := 0; i < k; i++ {
+				head.WriteString(uesc(body[i]))
+				tail.WriteString(uesc(body[len(body)-k+i]))
+			}
+			inputs = append(inputs, `"`+head.String()+body[k:]+`"`, `"`+body[:len(body)-k]+tail.String()+`"`)
+		}
+		for _, e := range []string{`\/`, `\\`, `\"`, `\n`, `\t`, `\u`, `\u12`, `\ud800`, `\x41`} {
+			for rep := 1; rep <= 8; rep++ {
+				inputs = append(inputs, `"`+strings.Repeat(e, rep)+`"`, `"`+body+strings.Repeat(e, rep)+`"`, `"`+strings.Repeat(e, rep)+body+`"`)
 			}
 		}
 	}
